@@ -18,7 +18,7 @@ RULE = (
     'generate_timestamped_rows and, for a sample, through `spowtd load` into the staging tables.  Oracle: pytz\'s '
     'UTC->local map (fromtimestamp(utc).astimezone(tz), a different code path from localize) must print the original '
     'text; zoneinfo as a second opinion where both databases give the same offset.  (b) Malformed variants of valid '
-    'G-load triples: one rainfall row removed or displaced inside the span, one ET row removed for a grid step, displaced '
+    'G-load triples: one rainfall row removed or displaced inside the span, one ET row removed for a grid step, the ET record ending early / starting late, displaced '
     'off the grid, or removed while extra off-grid readings keep the row count up, a '
     'second load into the populated dataset -- each must raise / exit non-zero, leave every gridded table empty '
     '(resp. the populated dataset byte-for-byte unchanged in its logical dump); the unmodified triple is loaded as a '
@@ -45,6 +45,9 @@ REQUIRED = {
         'refused:et-row-removed': 20,
         'refused:et-row-displaced': 20,
         'refused:et-row-removed-extra-rows-elsewhere': 20,
+        'refused:et-record-ends-early': 20,
+        'controls-with-stored-instants-compared': 50,
+        'refused:et-record-starts-late': 20,
         'refused:second-load': 20,
         'controls-accepted': 50,
         'files-spanning-two-utc-offsets': 100,
@@ -335,6 +338,16 @@ def check_refusals(ctx, rng, index, via):
         return
     rec.hit('controls-accepted')
     before = data.dump(open_(handle))
+    # the accepted load stored each instant as declared (it may follow refused loads, and loads
+    # of the same texts in other zones, in this process)
+    stored = [r[0] for r in open_(handle).execute('SELECT epoch FROM grid_time ORDER BY epoch')]
+    expected = [c10.to_epoch(t, zone) for t in inspan]
+    rec.hit('controls-with-stored-instants-compared')
+    if stored[:len(expected)] != expected:
+        rec.violation('stored-instant-of-an-accepted-load-is-not-the-declared-local-time',
+                      {'zone': zone, 'stored_first': stored[:3], 'expected_first': expected[:3], 'via': via},
+                      dict(case, malformation='control'), 'refusal')
+        return
     # second load into the populated dataset
     rec.case()
     handle2, exc = attempt(case['rain'], case['et'], case['z'], db=handle, label='c')
@@ -361,6 +374,12 @@ def check_refusals(ctx, rng, index, via):
         ('et-row-removed-extra-rows-elsewhere', case['rain'],
          [r for r in case['et'] if r[0] != et_victim] + [(rng.choice(inspan) + 7, 0.123), (rng.choice(inspan) + 11, 0.321)], case['z']),
     ]
+    # the ET record stops before the end of the grid / starts after its beginning (one or many
+    # grid steps without ET, all at one end)
+    cut = inspan[rng.randint(max(1, len(inspan) - 4), len(inspan) - 1)] if rng.random() < 0.5 else rng.choice(inspan[1:])
+    variants.append(('et-record-ends-early', case['rain'], [r for r in case['et'] if r[0] < cut], case['z']))
+    cut = inspan[rng.randint(0, min(3, len(inspan) - 2))] if rng.random() < 0.5 else rng.choice(inspan[:-1])
+    variants.append(('et-record-starts-late', case['rain'], [r for r in case['et'] if r[0] > cut], case['z']))
     if via == 'function' and index % 3 == 0:
         # library use: a load is refused, the caller keeps the connection (no rollback) and
         # loads another site into it: refused, or exactly that site -- never a merge
